@@ -113,20 +113,16 @@ type impElem struct {
 }
 
 func importUniverse(tier string) []impElem {
-	comps := [][]string{{"y"}, {"x", "y"}, {"xy"}, {"x", "xy"}, {"z", "y"}, {"a-b"}, {"x", "a-b"}, {"ab"}, {"x", "ab"}, {"go-x"}, {"v2"}, {"y", "v2"}}
-	names := []string{"y", "foo"}
-	var u []impElem
-	for _, c := range comps {
-		for _, n := range names {
-			u = append(u, impElem{c, n})
-		}
-	}
-	if tier != "thorough" {
-		// the quick sub-universe: still contains every interesting relation
-		// (equal base, equal after sanitising, prefix-concatenation clash, version suffix)
-		u = []impElem{{[]string{"y"}, "y"}, {[]string{"x", "y"}, "y"}, {[]string{"xy"}, "y"}, {[]string{"x", "xy"}, "y"}, {[]string{"z", "y"}, "foo"},
-			{[]string{"xy"}, "foo"}, {[]string{"x", "a-b"}, "y"}, {[]string{"x", "ab"}, "y"}, {[]string{"go-x"}, "foo"}, {[]string{"y", "v2"}, "y"},
-			{[]string{"x", "y"}, "foo"}, {[]string{"v2"}, "foo"}}
+	// one package name per path (a world cannot hold two packages in one
+	// directory); the relations that matter are all present: equal base names,
+	// equal names after sanitising (a-b / ab), concatenation clashes (xy vs x/y),
+	// version suffixes, different depths, names unrelated to the path
+	u := []impElem{{[]string{"y"}, "y"}, {[]string{"x", "y"}, "y"}, {[]string{"xy"}, "y"}, {[]string{"x", "xy"}, "y"}, {[]string{"z", "y"}, "foo"},
+		{[]string{"w", "xy"}, "foo"}, {[]string{"x", "a-b"}, "y"}, {[]string{"x", "ab"}, "y"}, {[]string{"go-x"}, "foo"}, {[]string{"y", "v2"}, "y"},
+		{[]string{"w", "y"}, "foo"}, {[]string{"v2"}, "foo"}}
+	if tier == "thorough" {
+		u = append(u, impElem{[]string{"a-b"}, "y"}, impElem{[]string{"ab"}, "foo"}, impElem{[]string{"z", "xy"}, "y"}, impElem{[]string{"x", "go-x"}, "y"},
+			impElem{[]string{"x", "y", "v2"}, "foo"}, impElem{[]string{"z", "foo"}, "foo"}, impElem{[]string{"x", "X"}, "y"}, impElem{[]string{"q", "z", "y"}, "y"})
 	}
 	return u
 }
